@@ -176,7 +176,10 @@ def filt_case(draw):
     nx = draw(st.integers(200, 600))
     cover = draw(st.sampled_from(['all', 'blue', 'red', 'none', 'middle']))
     lo, hi = dict(all=(2800.0, 11500.0), blue=(3000.0, 5000.0), red=(6000.0, 10500.0), none=(12000.0, 15000.0), middle=(4500.0, 7000.0))[cover]
-    return dict(ntr=ntr, nx=nx, cover=cover, lo=lo, hi=hi, direction=draw(st.sampled_from(['increasing', 'decreasing'])),
+    covers = dict(all=(2800.0, 11500.0), blue=(3000.0, 5000.0), red=(6000.0, 10500.0), none=(12000.0, 15000.0), middle=(4500.0, 7000.0))
+    # traces of one image may cover different bands (e.g. blue and red arms); first trace uses `cover`
+    per_trace = [cover] + [draw(st.sampled_from([cover, cover, 'all', 'red', 'blue', 'none'])) for _ in range(ntr - 1)]
+    return dict(ntr=ntr, nx=nx, cover=cover, lo=lo, hi=hi, ranges=[list(covers[c]) for c in per_trace], direction=draw(st.sampled_from(['increasing', 'decreasing'])),
                 fam=draw(st.sampled_from(['random', 'linear', 'const'])), seed=draw(st.integers(0, 10 ** 6)), c=draw(st.sampled_from([3.0, -2.5, 1e3, 0.0])),
                 mask=draw(st.sampled_from([None, 'runs', 'runs'])), runs=[[draw(st.integers(0, ntr - 1)), draw(st.integers(1, nx - 30)), draw(st.integers(1, 25))] for _ in range(3)],
                 toair=draw(st.booleans()), wset=draw(st.sampled_from([False, False, True])), alpha=draw(uf), beta=draw(uf), shift=[draw(uf) for _ in range(4)])
@@ -189,8 +192,8 @@ def filt_body(case):
     k = np.arange(nx, dtype='f8')
     rows = []
     for t in range(ntr):
-        l0 = math.log10(case['lo']) + 0.002 * case['shift'][t]
-        l1 = math.log10(case['hi']) + 0.002 * case['shift'][t]
+        l0 = math.log10(case['ranges'][t][0]) + 0.002 * case['shift'][t]
+        l1 = math.log10(case['ranges'][t][1]) + 0.002 * case['shift'][t]
         ll = l0 + (l1 - l0) * k / (nx - 1)
         rows.append(ll if case['direction'] == 'increasing' else ll[::-1].copy())
     logwave = np.array(rows)
@@ -263,7 +266,7 @@ def filt_body(case):
 
 
 def filt_classify(case):
-    return ['cover:' + case['cover'], case['direction'], 'fam:' + case['fam'], 'mask' if case['mask'] else 'nomask', 'wset' if case['wset'] else 'waveimg',
+    return ['cover:' + case['cover'], case['direction'], 'mixed-coverage' if len({tuple(r) for r in case['ranges']}) > 1 else 'same-coverage', 'fam:' + case['fam'], 'mask' if case['mask'] else 'nomask', 'wset' if case['wset'] else 'waveimg',
             'toair' if case['toair'] else 'vacuum']
 
 
